@@ -152,8 +152,23 @@ fn builders() -> Vec<Value> {
     out
 }
 
+/// proplist / map helpers on the lists of Elixir!PropCases
+fn props(path: &str) -> Vec<Value> {
+    read_ndjson(path).iter().map(|c| {
+        let l = build(&c["list"]);
+        let to_map = catch(|| l.proplist_to_map().ok());
+        let back = to_map.clone().ok().flatten().and_then(|m| m.map_to_proplist().ok());
+        let map_again = back.as_ref().and_then(|p| p.proplist_to_map().ok());
+        let norm = catch(|| l.normalize_proplist().ok());
+        let rec = catch(|| l.to_map_recursive().ok());
+        let d = |r: &Result<Option<OwnedTerm>, String>| match r { Ok(Some(t)) => denote(t), Ok(None) => json!({"error": true}), Err(p) => json!({"panic": p}) };
+        json!({"to_map": d(&to_map), "map_to_proplist": back.as_ref().map(denote), "map_again": map_again.as_ref().map(denote), "normalized": d(&norm), "recursive": d(&rec),
+               "is_proplist": l.is_proplist()})
+    }).collect()
+}
+
 pub fn run(args: &[String]) -> i32 {
-    // elixir-run <ranges.ndjson> <cross.ndjson> <mutations.ndjson> <valid.ndjson> <out.ndjson>
+    // elixir-run <ranges.ndjson> <cross.ndjson> <mutations.ndjson> <valid.ndjson> <out.ndjson> [<proplists.ndjson>]
     quiet_panics();
     let mut w = NdWriter::create(&args[4]);
     for (i, r) in read_ndjson(&args[0]).iter().enumerate() {
@@ -197,6 +212,14 @@ pub fn run(args: &[String]) -> i32 {
         o["set"] = json!("proplist");
         o["i"] = json!(i);
         w.put(&o);
+    }
+    if let Some(pp) = args.get(5) {
+        for (i, o) in props(pp).into_iter().enumerate() {
+            let mut o = o;
+            o["set"] = json!("props");
+            o["i"] = json!(i);
+            w.put(&o);
+        }
     }
     for (i, o) in builders().into_iter().enumerate() {
         let mut o = o;
